@@ -8,3 +8,16 @@
 pub mod alloc {
     pub use crate::alloc::{AllocError, AllocProxy, Allocator, CaoLangAllocator, SysAllocator};
 }
+
+/// The crate-private instruction set as `(opcode, name, span in bytes including the opcode)`,
+/// so an external bytecode verifier can cross-check its own operand-width table.
+pub fn instruction_table() -> Vec<(u8, String, usize)> {
+    use std::convert::TryFrom;
+    let mut out = Vec::new();
+    for op in 0..=255u8 {
+        if let Ok(instr) = crate::instruction::Instruction::try_from(op) {
+            out.push((op, format!("{:?}", instr), instr.span()));
+        }
+    }
+    out
+}
